@@ -1543,7 +1543,8 @@ def nanmedian(a, axis=None, keepdims=False, out=None):
     if not isinstance(axis, Iterable):
         axis = (axis,)
 
-    axis = [ax + a.ndim if ax < 0 else ax for ax in axis]
+    # a tuple: np.nanmedian hands an empty block to np.nanmean, which rejects a list
+    axis = tuple(ax + a.ndim if ax < 0 else ax for ax in axis)
 
     # rechunk if reduced axes are not contained in a single chunk
     if builtins.any(a.numblocks[ax] > 1 for ax in axis):
